@@ -4,6 +4,7 @@ import FastorModel.Driver.Expr
 import FastorModel.Driver.Lazy
 import FastorModel.Driver.Config
 import FastorModel.Driver.Reduce
+import FastorModel.Driver.Horizontal
 /-
   `fmodel`: line-protocol driver.  Reads one case per line on stdin, prints the model's observables
   for it.  The harness prints the implementation's observables for the same case in the same format.
@@ -24,6 +25,7 @@ def step (line : String) : String :=
   | "minmax" :: rest => runMinmax (parseKV rest)
   | "pred" :: rest => runPred (parseKV rest)
   | "detqr" :: rest => runDetQR (parseKV rest)
+  | "hstep" :: rest => runHstep (parseKV rest)
   | _ => "bad-op"
 
 partial def loop (h : IO.FS.Stream) (out : IO.FS.Stream) : IO Unit := do
